@@ -25,6 +25,14 @@ ASSUMPTIONS = [
 ]
 
 
+def lut_bytes(t):
+    """content of a distortion look-up table (None when absent)"""
+    if t is None:
+        return None
+    return (np.asarray(t.data).tobytes(), tuple(np.asarray(t.crpix).tolist()), tuple(np.asarray(t.crval).tolist()),
+            tuple(np.asarray(t.cdelt).tolist()))
+
+
 def snap(w):
     d = {
         'crpix': w.wcs.crpix.copy(), 'ctype': list(w.wcs.ctype), 'cdelt': w.wcs.get_cdelt().copy() if w.wcs.has_cd() else w.wcs.cdelt.copy(),
@@ -33,7 +41,8 @@ def snap(w):
         'pixel_shape': None if w.pixel_shape is None else tuple(w.pixel_shape),
         'pixel_bounds': None if w.pixel_bounds is None else tuple(map(tuple, w.pixel_bounds)),
         'array_shape': None if w.array_shape is None else tuple(w.array_shape),
-        'cpdis': (w.cpdis1 is None, w.cpdis2 is None), 'det2im': (w.det2im1 is None, w.det2im2 is None),
+        'cpdis': tuple(lut_bytes(t) for t in (w.cpdis1, w.cpdis2)),
+        'det2im': tuple(lut_bytes(t) for t in (w.det2im1, w.det2im2)),
         'naxis': w.naxis, 'radesys': str(w.wcs.radesys), 'equinox': float(w.wcs.equinox) if np.isfinite(w.wcs.equinox) else None,
     }
     if w.sip is not None:
@@ -143,8 +152,13 @@ def run(ctx):
             ctx.oracle_fail(case, {'what': 'CRVAL did not change although a shift was applied'})
         # header round trip
         px, py = scenes.probe_pixels(rng, c0, 6)
-        hdr = c.wcs.to_header(relax=True)
-        w2 = fitswcs.WCS(hdr)
+        if info['kind'] == 'lut':
+            # look-up tables live in image extensions: the round trip goes through an HDU list
+            hl = c.wcs.to_fits(relax=True)
+            w2 = fitswcs.WCS(hl[0].header, fobj=hl)
+        else:
+            hdr = c.wcs.to_header(relax=True)
+            w2 = fitswcs.WCS(hdr)
         a = np.array(c.wcs.all_pix2world(px, py, 0))
         b = np.array(w2.all_pix2world(px, py, 0))
         dra = (a[0] - b[0] + 180.0) % 360.0 - 180.0
